@@ -487,7 +487,12 @@ def facade_caches(repo: Repo, res: CheckResult) -> None:
                              and isinstance(a.targets[0], ast.Name) and a.targets[0].id == key_expr.id]
                     if len(bound) == 1:
                         key_expr = bound[0].value
-                proj = [c for c in ast.walk(key_expr) if isinstance(c, (ast.Call, ast.Attribute))]
+                fparams = {a for a in func_params(fn) if a != "self"}
+                # something COMPUTED FROM a parameter in place of the parameter (repr(tp), tp.__name__); other components next to
+                # the parameters (self._mode) do no harm
+                proj = [c for c in ast.walk(key_expr)
+                        if (isinstance(c, ast.Call) and any(isinstance(x, ast.Name) and x.id in fparams for a in c.args for x in ast.walk(a)))
+                        or (isinstance(c, ast.Attribute) and isinstance(c.value, ast.Name) and c.value.id in fparams)]
                 if proj:
                     res.add(Finding("C11", "FACADE.key-projects-parameter", m.rel, qual, f"key {norm(key_expr)[:80]}",
                                     f"the cache key `{norm(key_expr)[:80]}` is computed FROM the parameters ({norm(proj[0])[:40]}) instead of "
@@ -567,9 +572,10 @@ def caches_not_carried_over(repo: Repo, res: CheckResult, prop: str = "C11", rul
                     for t in targets:
                         if isinstance(t, ast.Attribute) and t.attr.endswith("_cache"):
                             val = x.value
+                            # an empty literal or a constructor called without positional arguments (an empty container of any
+                            # class; keyword arguments configure it, they do not fill it)
                             fresh = val is None or (isinstance(val, ast.Dict) and not val.keys) or (
-                                isinstance(val, ast.Call) and norm(val.func) in ("dict", "WeakKeyDictionary", "weakref.WeakKeyDictionary")
-                                and not val.args and not val.keywords)
+                                isinstance(val, ast.Call) and not val.args and not any(k.arg is None for k in val.keywords))
                             if isinstance(x, ast.AugAssign) or not fresh:
                                 bad = x
                 if isinstance(x, ast.Call) and isinstance(x.func, ast.Attribute) and x.func.attr in ("update", "__ior__") \
